@@ -19,6 +19,8 @@ pub struct Connection {
     pub addr: String,
     socket: Option<TcpStream>,
     buffer: BytesMut,
+    #[cfg(feature = "verif")]
+    mem: Option<crate::verif::MemPipe>,
 }
 
 impl Connection {
@@ -27,6 +29,8 @@ impl Connection {
             addr,
             socket: None,
             buffer: BytesMut::with_capacity(MAX_FRAME_SIZE),
+            #[cfg(feature = "verif")]
+            mem: None,
         }
     }
 
@@ -57,6 +61,12 @@ impl Connection {
         &mut self,
         msg: &T,
     ) -> Result<(), Box<dyn std::error::Error>> {
+        #[cfg(feature = "verif")]
+        if let Some(mem) = self.mem.as_ref() {
+            mem.write_all(msg.data().as_slice())?;
+            return Ok(());
+        }
+
         if let Some(socket) = self.socket.as_mut() {
             socket.write_all(msg.data().as_slice()).await?;
         }
@@ -68,6 +78,23 @@ impl Connection {
         loop {
             if let Some(frame) = self.parse_frame()? {
                 return Ok(Some(frame));
+            }
+
+            // In-memory byte source: same read / EOF handling as for the socket below.
+            #[cfg(feature = "verif")]
+            if let Some(mem) = self.mem.as_ref() {
+                let n = match mem.read_buf(&mut self.buffer).await {
+                    Err(_) => return Err(Error::CantReadFromSocket),
+                    Ok(n) => n,
+                };
+
+                if n == 0 {
+                    return match self.buffer.is_empty() {
+                        true => Ok(None),
+                        false => Err(Error::ConnectionReset),
+                    };
+                }
+                continue;
             }
 
             match self.socket.as_mut() {
@@ -88,6 +115,19 @@ impl Connection {
                 None => return Err(Error::SocketNotAvailable),
             }
         }
+    }
+
+    /// Use an in-memory pipe instead of a socket.
+    #[cfg(feature = "verif")]
+    pub fn verif_with_mem(&mut self, mem: crate::verif::MemPipe) -> &mut Self {
+        self.mem = Some(mem);
+        self
+    }
+
+    /// Number of received bytes currently buffered and not yet decoded.
+    #[cfg(feature = "verif")]
+    pub fn verif_buffer_len(&self) -> usize {
+        self.buffer.len()
     }
 
     fn parse_frame(&mut self) -> Result<Option<Frame>, Error> {
